@@ -45,7 +45,12 @@ func newCacheJanitor[MetadataT any](cfg *config.Config, interval time.Duration, 
 
 	j.subs.Add(cfg.Cache.CleanupInterval.OnChange(func(newInterval duration.Duration) {
 		slog.Info("Cache cleanup interval changed", "new_interval", newInterval)
-		j.intervalChanged <- newInterval.Cast()
+		// Only wake the janitor up; it reads the current setting itself, because notifications
+		// may overtake each other. If a wake-up is already pending there is nothing to add.
+		select {
+		case j.intervalChanged <- newInterval.Cast():
+		default:
+		}
 	}))
 
 	return j
@@ -70,7 +75,8 @@ func (j *cacheJanitor[MetadataT]) start(ctx context.Context) {
 				j.ensureCacheSize()
 				metrics.Global.Cache.CleanupRuns.Increment()
 				slog.Info("Cache cleanup cycle complete")
-			case newInterval := <-j.intervalChanged:
+			case <-j.intervalChanged:
+				newInterval := j.cfg.Cache.CleanupInterval.Read().Cast()
 				if newInterval <= 0 {
 					// Ticker.Reset panics on a non-positive duration, which would take the whole process down.
 					slog.Warn("Ignoring non-positive cache cleanup interval", "new_interval", newInterval)
